@@ -4,16 +4,29 @@ import langgen as G
 from refsub import ref_sub
 
 RULE = ("languages as C01; triples (a,b,x): x related to a by walking the hierarchy (both directions, 10% wrong on purpose), "
-        "function-typed a and x included, Top/Bottom included; also Top and non-function types in function position; "
+        "function-typed a and x included, Top/Bottom included; a third of the triples built so that structurally equal sub-terms of f and x are one Python object; also Top and non-function types in function position; "
         "non-trivial = x != a and neither is Top/Bottom; distinct by (language, f, x)")
 ASSUMPTIONS = ["types are well-formed; languages satisfy WF"]
 TRUSTED = ["harness/refsub.py (oracle)"]
 
 
-def obs_apply(f, x, spec, ops):
+def ty_py_shared(t, ops, cache):
+    """like G.ty_py, but structurally equal sub-terms are ONE Python object (as when a user keeps a type instance in a variable, or
+    through a type alias, and uses it on both sides of an application)"""
+    if t not in cache:
+        o, args = t
+        cache[t] = ops[o](*(ty_py_shared(a, ops, cache) for a in args))
+    return cache[t]
+
+
+def obs_apply(f, x, spec, ops, shared=False):
     from transforge import type as T
     try:
-        r = G.ty_py(f, ops).apply(G.ty_py(x, ops))
+        if shared:
+            cache = {}
+            r = ty_py_shared(f, ops, cache).apply(ty_py_shared(x, ops, cache))
+        else:
+            r = G.ty_py(f, ops).apply(G.ty_py(x, ops))
     except T.TypingError as e:
         # class only; SubtypeMismatch / FunctionApplicationError are TypeMismatch subclasses
         return "E:" + type(e).__name__, None
@@ -60,7 +73,9 @@ def run(ctx):
                 f = (G.TOP, ())
             else:
                 f = G.gen_ty(rng, spec, 2)
-            o, res = obs_apply(f, x, spec, ops)
+            shared = k % 3 == 0       # a third of the triples are built with shared sub-objects
+            o, res = obs_apply(f, x, spec, ops, shared)
+            ctx.count("built_with_shared_subobjects" if shared else "built_fresh")
             nontriv = f[0] == G.FUN and x != a and x[0] not in (G.TOP, G.BOT) and a[0] not in (G.TOP, G.BOT)
             ctx.case(f"(apply {G.ty_sexp(f)} {G.ty_sexp(x)})", o,
                 {"lang": spec.to_json(), "f": G.ty_str(f, spec), "x": G.ty_str(x, spec)},
@@ -68,8 +83,8 @@ def run(ctx):
             ctx.count("outcome_" + o.split(" ")[0])
             bad = check(spec, f, x, o)
             if bad:
-                ctx.fail(f"({G.ty_str(f, spec)}).apply({G.ty_str(x, spec)}) gave {o}: {bad}",
-                    {"check": bad}, {"lang": spec.to_json(), "f": f, "x": x})
+                ctx.fail(f"({G.ty_str(f, spec)}).apply({G.ty_str(x, spec)}){' [equal sub-terms shared as objects]' if shared else ''} gave {o}: {bad}",
+                    {"check": bad}, {"lang": spec.to_json(), "f": f, "x": x, "shared": shared})
 
 
 def check(spec, f, x, o):
@@ -97,7 +112,7 @@ def replay(ctx, payload):
     ops = spec.build()
     tt = lambda x: (x[0], tuple(tt(a) for a in x[1]))  # noqa
     f, x = tt(inp["f"]), tt(inp["x"])
-    o, _ = obs_apply(f, x, spec, ops)
+    o, _ = obs_apply(f, x, spec, ops, inp.get("shared", False))
     bad = check(spec, f, x, o)
     print(f"({G.ty_str(f, spec)}).apply({G.ty_str(x, spec)}) -> {o}; oracle: {bad or 'as the property states'}")
     return bad is None
